@@ -126,7 +126,7 @@ def gen_f_driver(cases, nvals, with_class):
                             Ln = 12 if vi % 2 == 0 else max(1, len(raw))
                     rc_ = [(3, 2), (1, 4), (2, 2), (4, 1)][vi % 4]
                     blk.append("    " + ffmt(fr["decl"], n=p["name"], L=Ln, r=rc_[0], c=rc_[1]))
-                    sets.append("    " + ffmt(fr["set"], n=p["name"], v=fv, r=rc_[0], c=rc_[1], **px(p)))
+                    sets.append("    " + ffmt(fr["set"], n=p["name"], v=fv, r=rc_[0], c=rc_[1], sz=[4, 0, 1, 3][vi % 4], **px(p)))
                 sz = [4, 0, 1, 3][vi % 4]
                 rc = [(3, 2), (1, 4), (2, 2), (4, 1)][vi % 4]
                 fx, rr = fres(c, tt)
